@@ -17,16 +17,25 @@ type evDst struct {
 	log   *[]fflate.VerifEvent
 	calls int
 	fails map[int]bool
+	last  []byte // the most recent write the destination accepted
+	early []byte // everything accepted while no compressor existed (a wrapper's header)
 }
 
 func (d *evDst) Write(p []byte) (int, error) {
 	k := d.calls
 	d.calls++
-	st := d.w.VerifState()
+	toks := 0
+	if d.w != nil { // nil while a gzip/zlib wrapper writes its header: the compressor does not exist yet
+		toks = d.w.VerifState().Tokens
+	}
 	ok := !d.fails[k]
-	*d.log = append(*d.log, fflate.VerifEvent{Kind: "D", Size: len(p), Tokens: st.Tokens, OK: ok})
+	*d.log = append(*d.log, fflate.VerifEvent{Kind: "D", Size: len(p), Tokens: toks, OK: ok})
 	if !ok {
 		return 0, errInjected
+	}
+	d.last = append(d.last[:0], p...)
+	if d.w == nil {
+		d.early = append(d.early, p...)
 	}
 	return len(p), nil
 }
